@@ -6,23 +6,24 @@ type PES struct {
 	StreamID byte   `json:"stream_id"`
 	Length   uint16 `json:"length"`
 	// optional header, only for stream ids that carry it
-	Scrambling int    `json:"scrambling"` // 2 bits
-	Priority   bool   `json:"priority"`
-	Align      bool   `json:"align"`
-	Copyright  bool   `json:"copyright"`
-	Original   bool   `json:"original"`
-	PTSDTS     int    `json:"pts_dts_flags"` // 0, 2 or 3
-	PTS        uint64 `json:"pts"`
-	DTS        uint64 `json:"dts"`
-	ESCR       bool   `json:"escr"`
-	ESRate     bool   `json:"es_rate"`
-	Trick      bool   `json:"trick"`
-	CopyInfo   bool   `json:"copy_info"`
-	CRC        bool   `json:"crc"`
-	Ext        bool   `json:"ext"`
-	OptFill    byte   `json:"opt_fill"` // value bits of the flag-driven optional fields
-	Stuffing   int    `json:"stuffing"` // 0xFF stuffing bytes inside the header
-	Data       Hex    `json:"data"`
+	Scrambling int     `json:"scrambling"` // 2 bits
+	Priority   bool    `json:"priority"`
+	Align      bool    `json:"align"`
+	Copyright  bool    `json:"copyright"`
+	Original   bool    `json:"original"`
+	PTSDTS     int     `json:"pts_dts_flags"` // 0, 2 or 3
+	PTS        uint64  `json:"pts"`
+	DTS        uint64  `json:"dts"`
+	ESCR       bool    `json:"escr"`
+	ESRate     bool    `json:"es_rate"`
+	Trick      bool    `json:"trick"`
+	CopyInfo   bool    `json:"copy_info"`
+	CRC        bool    `json:"crc"`
+	Ext        bool    `json:"ext"`
+	TREF       *uint64 `json:"tref,omitempty"` // with Ext: the extension carries a TREF field (it is not a DTS)
+	OptFill    byte    `json:"opt_fill"`       // value bits of the flag-driven optional fields
+	Stuffing   int     `json:"stuffing"`       // 0xFF stuffing bytes inside the header
+	Data       Hex     `json:"data"`
 }
 
 // PESHasOptionalHeader reports whether the stream id is followed by the
@@ -63,6 +64,9 @@ func (p *PES) HeaderDataLength() int {
 	}
 	if p.Ext {
 		n++
+		if p.TREF != nil {
+			n += 7
+		}
 	}
 	return n + p.Stuffing
 }
@@ -137,7 +141,14 @@ func (p *PES) Bytes() []byte {
 	if p.CRC {
 		fill(2)
 	}
-	if p.Ext {
+	if p.Ext && p.TREF != nil {
+		// PES_extension_flag_2 with the TREF field (H.222.0 2012 and later): flags byte with reserved bits 1 and
+		// flag_2, marker + PES_extension_field_length 6, stream_id_extension_flag 1 / reserved / tref_extension_flag 0,
+		// then TREF in the layout of a time stamp with prefix 1111
+		e := EncodePTS(0xF, *p.TREF)
+		out = append(out, 0x0F, 0x80|6, 0xFE)
+		out = append(out, e[:]...)
+	} else if p.Ext {
 		out = append(out, 0x0E) // no extension sub-fields, reserved bits 1
 	}
 	for i := 0; i < p.Stuffing; i++ {
